@@ -1,6 +1,6 @@
 #!/bin/bash
 # triage sweep: every history check, several seeds, thorough catalogue; prints TRIAGE lines only
-out=${1:-sweep_out}; mkdir -p $out
+out=${1:-/verif/sweeps/out}; mkdir -p $out
 for seed in 11 22 33; do
   for c in C07 C06 C08 C14 C16; do
     VERIF_SEED=$seed VERIF_TRIAGE=1 VERIF_EVIDENCE_DIR=$out/ev VERIF_REPLAY_DIR=$out/rp bin/check $c --tier thorough --runs ${RUNS:-20000} --budget ${BUDGET:-420} > $out/$c-$seed.log 2>&1
